@@ -516,13 +516,10 @@ def compare(h, run, mval, names):
             if a != b:
                 diffs.append("op %d wasted: implementation %s model %s" % (i, a, b))
         elif kind == "stats":
-            if h["tracker"] == "sort":
-                if mk != "XStats" or body != margs:
-                    diffs.append("op %d stats: implementation %s model %s" % (i, body, mo))
-            else:
-                # ids are only related by a bijection: the per-shard split is compared through it
-                if mk != "XStats" or sum(body) != sum(margs):
-                    diffs.append("op %d stats: implementation %s model %s" % (i, body, mo))
+            # totals and shard count (the split over the shards is id mod n in the model; the properties only speak
+            # about the number of tracks held, and BatchSort ids are related by a bijection only)
+            if mk != "XStats" or sum(body) != sum(margs) or len(body) != len(margs):
+                diffs.append("op %d stats: implementation %s model %s" % (i, body, mo))
         elif kind == "epoch":
             if mk != "XEpoch" or body != margs:
                 diffs.append("op %d epoch: implementation %s model %s" % (i, body, mo))
@@ -622,3 +619,797 @@ def base_run(chk, n_hist):
         pickle.dump(data, fh)
     chk.log("base run: %d histories, implementation %.1fs, model %.1fs" % (len(hists), data["impl_s"], data["model_s"]))
     return data
+
+
+# ------------------------------------------------------------------------------------------------
+# property oracles applied DIRECTLY to the implementation's outputs (independent of the Coq model)
+
+class Ledger:
+    """Bookkeeping by the letter of the property texts: epochs, tracks, places."""
+
+    def __init__(self, h):
+        self.h = h
+        self.batch = h["tracker"] == "batch"
+        self.epoch = {}            # scene -> epoch
+        self.tracks = {}           # id -> {"scene", "dets": [uids], "last": epoch}
+        self.det_track = {}        # uid -> id
+        self.delivered = set()
+        self.cleared = set()
+        self.names = Names()
+
+    def ep(self, s):
+        return self.epoch.get(s, 0)
+
+
+def oracle_history(h, run, want=("C01", "C03", "C04")):
+    """Returns list of (prop, key, message, step index).  Sound: only flags what the property texts forbid."""
+    out = []
+    L = Ledger(h)
+    max_idle = h["max_idle"]
+    prev_main, prev_wst = [], []
+    cleared_seen = False
+
+    def flag(prop, key, msg, i):
+        if prop in want:
+            out.append((prop, key, msg, i))
+
+    for i, op in enumerate(h["ops"]):
+        if i >= len(run["steps"]):
+            break
+        st = run["steps"][i]
+        kind, body = st["res"] if st["res"] else ("none", None)
+        if kind in ("panic", "hang", "none"):
+            flag("C01", "panic", "op %d (%s) panicked or hung" % (i, op["kind"]), i)
+            flag("C03", "panic", "op %d (%s) panicked or hung" % (i, op["kind"]), i)
+            break
+        k = op["kind"]
+        for d in op_dets(op):
+            L.names.add(d)
+        if k in ("predict", "batch"):
+            if k == "predict":
+                groups = [(op["scene"], op["dets"], body if kind == "records" else None)]
+            else:
+                bd = dict(body) if kind == "batch" else {}
+                groups = [(s, ds, bd.get(s, [] if not ds else None)) for s, ds in op["scenes"]]
+            seen_ids = set()
+            for scene, dets, recs in groups:
+                if L.batch and not dets:
+                    # a BatchSort request cannot carry a scene without detections: nothing was submitted
+                    if recs:
+                        flag("C01", "count", "op %d: records returned for a scene without detections" % i, i)
+                    continue
+                L.epoch[scene] = L.ep(scene) + 1
+                e = L.ep(scene)
+                if recs is None:
+                    flag("C01", "count", "op %d scene %d: no result for the scene" % (i, scene), i)
+                    continue
+                if len(recs) != len(dets):
+                    flag("C01", "count", "op %d scene %d: %d detections, %d records" % (i, scene, len(dets), len(recs)), i)
+                for j, (d, r) in enumerate(zip(dets, recs)):
+                    if r["obs"] != L.names.uid_cls[d["uid"]]:
+                        flag("C01", "echo-box", "op %d: record %d does not echo the observed box of detection %d (in submission order)" % (i, j, d["uid"]), i)
+                    if r["custom"] != d["custom"]:
+                        flag("C01", "echo-custom", "op %d: record %d custom id %s, detection %s" % (i, j, r["custom"], d["custom"]), i)
+                    if r["scene"] != scene:
+                        flag("C01", "echo-scene", "op %d: record %d scene %d, call scene %d" % (i, j, r["scene"], scene), i)
+                        flag("C04", "cross-scene", "op %d: detection of scene %d got a record of scene %d" % (i, scene, r["scene"]), i)
+                    if r["epoch"] != e:
+                        flag("C01", "epoch", "op %d: record %d epoch %d, scene epoch %d" % (i, j, r["epoch"], e), i)
+                    if r["id"] in seen_ids:
+                        flag("C01", "dup-id", "op %d: track id %d given to two detections of one call" % (i, r["id"]), i)
+                    seen_ids.add(r["id"])
+                    t = L.tracks.get(r["id"])
+                    if t is None:
+                        L.tracks[r["id"]] = t = {"scene": scene, "dets": [], "last": e}
+                    else:
+                        # continuing an existing id
+                        if r["id"] in L.delivered or r["id"] in L.cleared:
+                            flag("C01", "id-reuse", "op %d: id %d was issued before (that track was already handed out / cleared)" % (i, r["id"]), i)
+                            flag("C03", "one-place", "op %d: id %d is live again after having been handed out / cleared" % (i, r["id"]), i)
+                        if t["scene"] != scene:
+                            flag("C04", "cross-scene", "op %d: detection %d of scene %d attached to track %d of scene %d" % (i, d["uid"], scene, r["id"], t["scene"]), i)
+                        if e - t["last"] > max_idle:
+                            flag("C03", "expired-continued", "op %d: track %d (last update %d, scene epoch %d, max_idle %d) was expired but continued" % (i, r["id"], t["last"], e, max_idle), i)
+                    t["dets"].append(d["uid"])
+                    t["last"] = e
+                    L.det_track[d["uid"]] = r["id"]
+                    if r["len"] != len(t["dets"]):
+                        if len(t["dets"]) == 1 and r["len"] > 1:
+                            flag("C01", "id-reuse", "op %d: new track got id %d whose stored length is %d" % (i, r["id"], r["len"]), i)
+                        flag("C01", "length", "op %d: record %d length %d, %d detections attached to track %d" % (i, j, r["len"], len(t["dets"]), r["id"]), i)
+        elif k == "skip":
+            L.epoch[op["scene"]] = L.ep(op["scene"]) + op["n"]
+        elif k == "epoch":
+            if body != L.ep(op["scene"]):
+                flag("C03", "epoch", "op %d: current_epoch(%d) = %d, expected %d (one per predict, n per skip)" % (i, op["scene"], body, L.ep(op["scene"])), i)
+        elif k == "wasted":
+            got = sorted(t["id"] for t in body)
+            pool = {t["id"]: t for t in prev_main + prev_wst}
+            exp = sorted(tid for tid in pool if tid in L.tracks and L.ep(L.tracks[tid]["scene"]) - L.tracks[tid]["last"] > max_idle)
+            if len(set(got)) != len(got) or any(g in L.delivered for g in got):
+                flag("C03", "delivered-twice", "op %d: wasted() hands out a track a second time: %s" % (i, got), i)
+            if got != exp:
+                flag("C03", "expiry", "op %d: wasted() returned %s, the expired tracks are %s (max_idle %d)" % (i, got, exp, max_idle), i)
+            for t in body:
+                lt = L.tracks.get(t["id"])
+                if lt is not None and t["len"] != len(lt["dets"]):
+                    flag("C03", "length", "op %d: wasted track %d length %d, %d detections attached" % (i, t["id"], t["len"], len(lt["dets"])), i)
+            L.delivered.update(got)
+        elif k == "idle":
+            got = sorted(r["id"] for r in body)
+            s = op["scene"]
+            exp = sorted(t["id"] for t in prev_main if t["id"] in L.tracks and L.tracks[t["id"]]["scene"] == s
+                         and L.ep(s) - L.tracks[t["id"]]["last"] <= max_idle and L.tracks[t["id"]]["last"] != L.ep(s))
+            if got != exp:
+                flag("C03", "idle", "op %d: idle_tracks(%d) = %s, expected the unexpired tracks not updated in epoch %d: %s" % (i, s, got, L.ep(s), exp), i)
+        elif k == "clear":
+            L.cleared.update(t["id"] for t in prev_wst)
+            cleared_seen = True
+        elif k == "astats":
+            # the property speaks about the NUMBER of tracks held; how they are spread over the shards is not part of it
+            if sum(body) != len(prev_main) or len(body) != h["shards"]:
+                flag("C03", "stats-active", "op %d: active_shard_stats %s (sum %d), the live store holds %d tracks" % (i, body, sum(body), len(prev_main)), i)
+        elif k == "wstats":
+            if sum(body) != len(prev_wst) or len(body) != h["shards"]:
+                flag("C03", "stats-wasted", "op %d: wasted_shard_stats %s (sum %d), the store of collected expired tracks holds %d" % (i, body, sum(body), len(prev_wst)), i)
+        # places after the op
+        main_ids = [t["id"] for t in st["main"]]
+        wst_ids = [t["id"] for t in st["wst"]]
+        allp = main_ids + wst_ids + list(L.delivered) + list(L.cleared)
+        if len(set(allp)) != len(allp):
+            c = Counter(allp)
+            flag("C03", "one-place", "op %d: tracks %s are in two places" % (i, [x for x in c if c[x] > 1][:4]), i)
+        if set(allp) != set(L.tracks.keys()):
+            miss = sorted(set(L.tracks.keys()) - set(allp))
+            extra = sorted(set(allp) - set(L.tracks.keys()))
+            flag("C03", "one-place", "op %d: tracks %s are nowhere, %s were never created" % (i, miss[:4], extra[:4]), i)
+        for t in st["main"] + st["wst"]:
+            lt = L.tracks.get(t["id"])
+            if lt is not None and t["len"] != len(lt["dets"]):
+                flag("C03", "length", "op %d: stored track %d length %d, %d detections attached" % (i, t["id"], t["len"], len(lt["dets"])), i)
+        # every submitted detection sits in exactly one track (the ledger is a function uid -> id by construction;
+        # the totals must agree)
+        if sum(len(t["dets"]) for t in L.tracks.values()) != len(L.det_track):
+            flag("C03", "conservation", "op %d: a detection is recorded in two tracks" % i, i)
+        prev_main, prev_wst = st["main"], st["wst"]
+        if out and len(out) > 6:
+            break
+    return out
+
+
+def observable(h, run, bij_exact):
+    """The observable outputs of a run for paired comparisons: per op a canonical value, ids mapped by the
+    first-occurrence bijection of the predict records (ids of Sort are compared exactly)."""
+    ren = {}
+    obs = []
+    after_clear = False
+
+    def rid(x):
+        if bij_exact:
+            return x
+        if x not in ren:
+            ren[x] = len(ren) + 1
+        return ren[x]
+
+    def rec(r):
+        return (rid(r["id"]), r["epoch"], r["scene"], r["len"], r["custom"], r["obs"])
+    for i, st in enumerate(run["steps"]):
+        kind, body = st["res"] if st["res"] else ("none", None)
+        if kind == "records":
+            obs.append(("records", [rec(r) for r in body]))
+        elif kind == "batch":
+            obs.append(("batch", [(s, [rec(r) for r in rs]) for s, rs in sorted(body, key=lambda x: x[0])]))
+        elif kind == "idle":
+            obs.append(("idle", sorted(rec(r) for r in body)))
+        elif kind == "wasted":
+            if after_clear:
+                obs.append(("wasted-after-clear", None))
+            else:
+                obs.append(("wasted", sorted((rid(t["id"]), t["scene"], t["epoch"], t["len"], t["custom"], tuple(t["obs"]), t["npred"]) for t in body)))
+        elif kind == "epoch":
+            obs.append(("epoch", body))
+        elif kind == "stats":
+            obs.append(("stats", None))       # physical, timing dependent by definition
+        elif kind == "unit":
+            obs.append(("unit", None))
+            if i < len(h["ops"]) and h["ops"][i]["kind"] == "clear":
+                after_clear = True
+        else:
+            obs.append((kind, None))
+    return obs
+
+
+def with_period(h, p):
+    """the same history under auto-waste periodicity p (every set_auto_waste of the history is replaced)"""
+    ops = [o for o in h["ops"] if o["kind"] != "setaw"]
+    return clone(h, ops=[{"kind": "setaw", "p": p}] + [dict(o) for o in ops])
+
+
+def project(h, s):
+    """the calls of scene s only"""
+    ops = []
+    for o in h["ops"]:
+        k = o["kind"]
+        if k in ("predict", "skip", "idle", "epoch") and o["scene"] == s:
+            ops.append(dict(o))
+        elif k == "batch":
+            for sc, ds in o["scenes"]:
+                if sc == s and (ds or h["tracker"] != "batch"):
+                    ops.append({"kind": "predict", "scene": s, "dets": ds})
+    return clone(h, ops=ops)
+
+
+def scene_outputs(h, run, s):
+    """canonical outputs of the scene-s calls of a run (ids by first occurrence within the scene)"""
+    ren = {}
+
+    def rid(x):
+        if x not in ren:
+            ren[x] = len(ren) + 1
+        return ren[x]
+
+    def rec(r):
+        return (rid(r["id"]), r["epoch"], r["scene"], r["len"], r["custom"], r["obs"])
+    out = []
+    for i, st in enumerate(run["steps"]):
+        if i >= len(h["ops"]):
+            break
+        o = h["ops"][i]
+        kind, body = st["res"] if st["res"] else ("none", None)
+        if kind in ("panic", "hang", "none"):
+            out.append(("panic", None))
+            break
+        k = o["kind"]
+        if k == "predict" and o["scene"] == s:
+            if h["tracker"] == "batch" and not o["dets"]:
+                continue
+            out.append(("records", [rec(r) for r in body]))
+        elif k == "batch":
+            for sc, rs in body:
+                if sc == s:
+                    ds = dict(o["scenes"]).get(s, [])
+                    if h["tracker"] == "batch" and not ds:
+                        continue
+                    out.append(("records", [rec(r) for r in rs]))
+        elif k == "idle" and o["scene"] == s:
+            out.append(("idle", sorted(rec(r) for r in body)))
+        elif k == "epoch" and o["scene"] == s:
+            out.append(("epoch", body))
+    return out
+
+
+def scenes_of(h):
+    sc = set()
+    for o in h["ops"]:
+        if "scene" in o:
+            sc.add(o["scene"])
+        if o["kind"] == "batch":
+            sc.update(s for s, _ in o["scenes"])
+    return sorted(sc)
+
+
+def without_constraints(h):
+    return clone(h, constraints=None)
+
+
+def applicable_limit(h, gap):
+    """C20 by the letter: the limit configured FIRST for the LEAST configured gap >= the epoch gap (None: none)"""
+    if h["constraints"] is None:
+        return None
+    allc = [e for call in h["constraints"] for e in call]
+    gaps = [g for g, _ in allc if g >= gap]
+    if not gaps:
+        return None
+    g = min(gaps)
+    return next(f32_bits_to_fraction(b) for gg, b in allc if gg == g)
+
+
+def constraint_facts(h, run):
+    """-> (binding_pairs, violations): binding_pairs = number of (candidate, same-scene track within max_idle)
+    pairs whose dist_in_2r exceeds the applicable limit; violations = continued records beyond the limit."""
+    L = Ledger(h)
+    binding = 0
+    viol = []
+    for i, op in enumerate(h["ops"]):
+        if i >= len(run["steps"]):
+            break
+        st = run["steps"][i]
+        kind, body = st["res"] if st["res"] else ("none", None)
+        if kind in ("panic", "hang", "none"):
+            break
+        k = op["kind"]
+        if k in ("predict", "batch"):
+            if k == "predict":
+                groups = [(op["scene"], op["dets"], body if kind == "records" else [])]
+            else:
+                bd = dict(body) if kind == "batch" else {}
+                groups = [(s, ds, bd.get(s, [])) for s, ds in op["scenes"]]
+            for scene, dets, recs in groups:
+                if L.batch and not dets:
+                    continue
+                L.epoch[scene] = L.ep(scene) + 1
+                e = L.ep(scene)
+                for d in dets:
+                    row = st["tab"].get(d["uid"], {})
+                    for tid, (w, d2r) in row.items():
+                        t = L.tracks.get(tid)
+                        if t is None or t["scene"] != scene or e - t["last"] > h["max_idle"] or d2r == "p":
+                            continue
+                        lim = applicable_limit(h, e - t["last"])
+                        if lim is not None and f32_bits_to_fraction(d2r) > lim:
+                            binding += 1
+                for d, r in zip(dets, recs or []):
+                    t = L.tracks.get(r["id"])
+                    if t is None:
+                        L.tracks[r["id"]] = {"scene": scene, "dets": [d["uid"]], "last": e, "pending": e}
+                    else:
+                        row = st["tab"].get(d["uid"], {})
+                        ent = row.get(r["id"])
+                        gap = e - t["last"]
+                        lim = applicable_limit(h, gap)
+                        if ent is not None and ent[1] != "p" and lim is not None and f32_bits_to_fraction(ent[1]) > lim:
+                            viol.append((i, d["uid"], r["id"], gap, float(f32_bits_to_fraction(ent[1])), float(lim)))
+                        t["dets"].append(d["uid"])
+                        t["pending"] = e
+                for t in L.tracks.values():
+                    if "pending" in t:
+                        t["last"] = t.pop("pending")
+        elif k == "skip":
+            L.epoch[op["scene"]] = L.ep(op["scene"]) + op["n"]
+    return binding, viol
+
+
+# ------------------------------------------------------------------------------------------------
+# shrinking
+
+def shrink_history(h, fails, budget=120):
+    """greedy delta debugging: drop operations (suffix first), then single detections, while fails(h)"""
+    cur = h
+    calls = [0]
+
+    def ok(c):
+        if calls[0] >= budget:
+            return False
+        calls[0] += 1
+        try:
+            return fails(c)
+        except Exception:
+            return False
+    # cut the suffix
+    lo = 1
+    n = len(cur["ops"])
+    for cut in range(1, n):
+        c = clone(cur, ops=cur["ops"][:cut])
+        if ok(c):
+            cur = c
+            break
+    changed = True
+    while changed and calls[0] < budget:
+        changed = False
+        for i in range(len(cur["ops"]) - 1, -1, -1):
+            c = clone(cur, ops=cur["ops"][:i] + cur["ops"][i + 1:])
+            if c["ops"] and ok(c):
+                cur = c
+                changed = True
+                break
+        if changed:
+            continue
+        for i, o in enumerate(cur["ops"]):
+            if o["kind"] == "predict" and o["dets"]:
+                for j in range(len(o["dets"])):
+                    c = clone(cur)
+                    c["ops"][i] = dict(o, dets=o["dets"][:j] + o["dets"][j + 1:])
+                    if ok(c):
+                        cur = c
+                        changed = True
+                        break
+            if changed:
+                break
+    return cur
+
+
+def describe(h):
+    """human-readable decoded history for replay files"""
+    out = {"config": {k: h[k] for k in ("tracker", "shards", "vshards", "history", "max_idle")},
+           "metric": h["metric"][0] + ("" if h["metric"][1] is None else "(%g)" % float(f32_bits_to_fraction(h["metric"][1]))),
+           "constraints": None if h["constraints"] is None else [[(g, float(f32_bits_to_fraction(b))) for g, b in call] for call in h["constraints"]],
+           "ops": []}
+    for o in h["ops"]:
+        if o["kind"] == "predict":
+            out["ops"].append("predict scene=%d [%s]" % (o["scene"], "; ".join(
+                "#%d (xc=%g yc=%g angle=%s aspect=%g h=%g conf=%g custom=%s)" % (
+                    d["uid"], float(f32_bits_to_fraction(d["xc"])), float(f32_bits_to_fraction(d["yc"])),
+                    "None" if d["angle"] is None else "%g" % float(f32_bits_to_fraction(d["angle"])),
+                    float(f32_bits_to_fraction(d["aspect"])), float(f32_bits_to_fraction(d["height"])),
+                    float(f32_bits_to_fraction(d["conf"])), d["custom"]) for d in o["dets"])))
+        else:
+            out["ops"].append(op_text(o)[:400])
+    return out
+
+
+def replay_obj(h, what, extra=None):
+    o = {"spec": spec_text(h), "decoded": describe(h), "what": what,
+         "replay_cmd": "save the 'spec' text to /tmp/h.txt ; %s run --file /tmp/h.txt" % vlib.harness_bin("tracker")}
+    if extra:
+        o.update(extra)
+    return o
+
+
+# ------------------------------------------------------------------------------------------------
+# classification of histories (evidence: what counts as non-trivial, DESIGN.md appendix B)
+
+def classify(h, run):
+    """-> dict of flags measured on the implementation run"""
+    thr = thr_of(h)
+    crowded = False
+    dup = False
+    expired_uncollected_observed = False
+    L = Ledger(h)
+    prev_main = []
+    pending_expired = False
+    for i, op in enumerate(h["ops"]):
+        if i >= len(run["steps"]):
+            break
+        st = run["steps"][i]
+        k = op["kind"]
+        if pending_expired and k in ("idle", "wasted", "predict", "batch", "astats", "wstats"):
+            expired_uncollected_observed = True
+        if k in ("predict", "batch"):
+            groups = [(op["scene"], op["dets"])] if k == "predict" else op["scenes"]
+            scene_of = {t["id"]: t["scene"] for t in prev_main}
+            for scene, dets in groups:
+                if L.batch and not dets:
+                    continue
+                L.epoch[scene] = L.ep(scene) + 1
+                keys = [box_key(d) for d in dets]
+                if len(set(keys)) < len(keys):
+                    dup = True
+                cnt = Counter()
+                for d in dets:
+                    for tid, (w, _) in st["tab"].get(d["uid"], {}).items():
+                        if isinstance(w, int) and w >= thr and scene_of.get(tid) == scene:
+                            cnt[tid] += 1
+                if any(v >= 2 for v in cnt.values()):
+                    crowded = True
+        elif k == "skip":
+            L.epoch[op["scene"]] = L.ep(op["scene"]) + op["n"]
+        pending_expired = any(L.ep(t["scene"]) - t["epoch"] > h["max_idle"] for t in st["main"])
+        prev_main = st["main"]
+    return {"crowded": crowded, "dup": dup, "gc_observed": expired_uncollected_observed}
+
+
+def config_key(h):
+    return "%s/sh%d/h%d/mi%d/%s/%s" % (h["tracker"], h["shards"], h["history"], h["max_idle"], h["metric"][0],
+                                       "cons" if h["constraints"] else "nocons")
+
+
+def hist_hash(h):
+    return hashlib.sha256(spec_text(h).encode()).hexdigest()[:16]
+
+
+def common_stage(chk, pid, n_quick=240, n_thorough=3000):
+    """proof stage + harness build + shared base run.  Returns data or None (harness did not build)."""
+    props = os.path.join(vlib.COQ, "theories", "Props", "%s.v" % pid)
+    vlib.proof_stage(chk, props)
+    if chk.tier == "thorough":
+        vlib.coqchk_stage(chk, "Similari.Props.%s" % pid)
+    ok, out = vlib.harness_build(["tracker"])
+    if not ok:
+        chk.broken.append("harness build failed:\n" + out[-2000:])
+        chk.violation("harness-build", "the correspondence harness (bin tracker) does not build against the repository",
+                      {"log": out[-4000:]}, found_input=False)
+        chk.coverage.update({"evaluations": 0})
+        return None
+    n = n_quick if chk.tier == "quick" else n_thorough
+    data = base_run(chk, n)
+    if data["model_error"]:
+        chk.broken.append("model evaluation failed: " + data["model_error"])
+    return data
+
+
+def coverage_common(chk, data, rule, nontrivial_flag):
+    hists, runs, corr = data["hists"], data["runs"], data["corr"]
+    hist = Counter()
+    nontrivial = set()
+    ncalls = 0
+    ties = 0
+    diffs = 0
+    for k, (h, r) in enumerate(zip(hists, runs)):
+        if r is None:
+            continue
+        hist[config_key(h)] += 1
+        for o in h["ops"]:
+            hist["op:" + o["kind"]] += 1
+            if o["kind"] == "predict":
+                hist["dets=%d" % len(o["dets"])] += 1
+        ncalls += len(r["steps"])
+        cl = classify(h, r)
+        for f, v in cl.items():
+            if v:
+                hist["flag:" + f] += 1
+        if nontrivial_flag(cl):
+            nontrivial.add(hist_hash(h))
+        if corr and corr[k]:
+            ties += corr[k]["ties"]
+            if corr[k]["diffs"]:
+                diffs += 1
+    chk.coverage.update({
+        "evaluations": len(hists),
+        "operations_compared": ncalls,
+        "distinct_nontrivial": len(nontrivial),
+        "rule": rule,
+        "samples": [spec_text(h)[:600] for h in hists[:2]],
+        "input_distribution": dict(hist),
+        "model_vs_impl_disagreements": diffs,
+        "calls_with_tied_optimum": ties,
+        "base_run_wall_s": {"implementation": data["impl_s"], "model": data["model_s"]},
+    })
+    return diffs
+
+
+def report_correspondence(chk, pid, data, oracle_found):
+    """if the model and the code differ (or a proof broke) and no oracle found a failing input: tie broken"""
+    corr = data["corr"]
+    bad = [k for k, cr in enumerate(corr or []) if cr and cr["diffs"]]
+    if (bad or chk.broken) and not oracle_found:
+        what = "proof or correspondence no longer checks"
+        if chk.broken:
+            what += ": " + "; ".join(b.split("\n")[0][:200] for b in chk.broken)
+        rep = {"broken": chk.broken}
+        if bad:
+            k = bad[0]
+            h = data["hists"][k]
+            what += "; model and implementation differ on %d of %d histories" % (len(bad), len(corr))
+            rep.update(replay_obj(h, what, {"first_difference": corr[k]["diffs"][0][:1500]}))
+        chk.violation("%s:tie-broken" % pid, what, rep, found_input=False)
+
+
+def report_oracle_failures(chk, pid, data, fails_by_key, make_fails):
+    """fails_by_key: key -> (history index, message).  Shrinks and reports one violation per key."""
+    found = False
+    for key, (k, msg) in sorted(fails_by_key.items())[:6]:
+        h = data["hists"][k]
+        f = make_fails(key)
+        small = h
+        try:
+            if f(h):
+                small = shrink_history(h, f)
+        except Exception:
+            pass
+        r = run_impl([small])[0]
+        msgs = [m for (p, kk, m, _) in oracle_history(small, r, want=(pid,)) if kk == key] if r else []
+        chk.violation("%s:%s" % (pid, key), msg if not msgs else msgs[0],
+                      replay_obj(small, msgs[0] if msgs else msg,
+                                 {"oracle": key, "original_history": h["k"], "seed": chk.seed,
+                                  "implementation_output": [(s["optext"][:80], s["res"]) for s in (r["steps"] if r else [])][-6:]}))
+        found = True
+    return found
+
+
+def ledger_fails(pid, key):
+    def f(h):
+        r = run_impl([h])[0]
+        if r is None:
+            return False
+        return any(p == pid and kk == key for (p, kk, _, _) in oracle_history(h, r, want=(pid,)))
+    return f
+
+
+def generic_replay(chk, path, pid):
+    rep = json.load(open(path))
+    ok, out = vlib.harness_build(["tracker"])
+    if "spec" not in rep:
+        print("replay file has no history (proof / correspondence breakage): %s" % rep.get("what"))
+        return 1
+    hs = parse_specs(rep["spec"])
+    if not hs:
+        print("cannot parse the stored history")
+        return 1
+    h = hs[0]
+    r = run_impl([h])[0]
+    print(spec_text(h))
+    for s in (r["steps"] if r else []):
+        print("op", s["optext"][:120], "->", s["res"])
+    key = rep.get("oracle")
+    fl = oracle_history(h, r, want=(pid,)) if r else []
+    hit = [m for (p, kk, m, _) in fl if key is None or kk == key]
+    for m in hit[:5]:
+        print("ORACLE:", m)
+    extra = rep.get("pair")
+    if extra and not hit:
+        hit = pair_replay(h, extra)
+    print("REPRODUCED" if hit else "not reproduced")
+    return 1 if hit else 0
+
+
+def pair_replay(h, extra):
+    kind = extra.get("kind")
+    if kind == "period":
+        a, b = with_period(h, extra["p1"]), with_period(h, extra["p2"])
+        ra, rb = run_impl([a, b])
+        oa, ob = observable(a, ra, h["tracker"] == "sort"), observable(b, rb, h["tracker"] == "sort")
+        for i, (x, y) in enumerate(zip(oa, ob)):
+            if x != y:
+                print("periodicity %d vs %d differ at op %d: %s / %s" % (extra["p1"], extra["p2"], i, x, y))
+                return [1]
+    if kind == "project":
+        s = extra["scene"]
+        p = project(h, s)
+        ra, rb = run_impl([h, p])
+        x, y = scene_outputs(h, ra, s), scene_outputs(p, rb, s)
+        if x != y:
+            print("scene %d: interleaved %s / alone %s" % (s, x[:6], y[:6]))
+            return [1]
+    if kind == "noconstraints":
+        b = without_constraints(h)
+        ra, rb = run_impl([h, b])
+        x, y = observable(h, ra, h["tracker"] == "sort"), observable(b, rb, h["tracker"] == "sort")
+        if x != y:
+            print("with / without the non-binding table differ")
+            return [1]
+    return []
+
+
+# ------------------------------------------------------------------------------------------------
+# C20, tracker level (to be called from the C20 check: tracker_common.c20t_run(chk))
+
+def f32_bits(x):
+    import struct
+    return struct.unpack("<I", struct.pack("<f", x))[0]
+
+
+def c20t_run(chk, pid="C20T", max_hist=200):
+    """proof stage for Props/C20T.v + the two tracker-level oracles on the implementation:
+    (a) a table that no considered pair violates is a no-op (run with the table == run without),
+    (b) with a binding table no record continues a track beyond the limit for their epoch gap."""
+    data = common_stage(chk, pid)
+    if data is None:
+        return
+    hists, runs, corr = data["hists"], data["runs"], data["corr"]
+    found = False
+    # (b) binding tables
+    nb_hist = 0
+    binding_pairs = 0
+    viol = {}
+    for k, (h, r) in enumerate(zip(hists, runs)):
+        if r is None or h["constraints"] is None:
+            continue
+        b, v = constraint_facts(h, r)
+        binding_pairs += b
+        if b:
+            nb_hist += 1
+        if v:
+            viol.setdefault("tracker-binding", (k, v[0]))
+    for key, (k, v) in viol.items():
+        h = hists[k]
+
+        def f(hh):
+            rr = run_impl([hh])[0]
+            return bool(rr and constraint_facts(hh, rr)[1])
+        small = shrink_history(h, f) if f(h) else h
+        msg = ("op %d: detection %d was attached to track %d at epoch gap %d although dist_in_2r %.4f exceeds the limit %.4f"
+               % v)
+        chk.violation("C20:" + key, msg, replay_obj(small, msg, {"oracle": key, "original_history": h["k"], "seed": chk.seed}))
+        found = True
+    # (a) non-binding tables: the history's own table when no considered pair violates it, and a huge-limit table
+    cand = [k for k, h in enumerate(hists) if tie_free(h, runs[k])][:max_hist]
+    pairs = []
+    big = [[(0, f32_bits(1.0e6)), (2, f32_bits(2.0e6))], [(1, f32_bits(1.5e6))]]
+    for k in cand:
+        h = hists[k]
+        if h["constraints"] is not None and constraint_facts(h, runs[k])[0] == 0:
+            pairs.append((k, h, without_constraints(h), "own"))
+        pairs.append((k, clone(h, constraints=big), without_constraints(h), "huge"))
+    rs = run_impl([x for p in pairs for x in (p[1], p[2])])
+    compared = 0
+    nfail = {}
+    for j, (k, a, b, kind) in enumerate(pairs):
+        ra, rb = rs[2 * j], rs[2 * j + 1]
+        if ra is None or rb is None or not tie_free(a, ra) or not tie_free(b, rb):
+            continue
+        compared += 1
+        ex = a["tracker"] == "sort"
+        if observable(a, ra, ex) != observable(b, rb, ex):
+            nfail.setdefault("tracker-nonbinding-" + kind, (k, a))
+    for key, (k, a) in nfail.items():
+        def f(hh):
+            bb = without_constraints(hh)
+            ra, rb = run_impl([hh, bb])
+            if ra is None or rb is None or not tie_free(hh, ra) or not tie_free(bb, rb):
+                return False
+            if constraint_facts(hh, ra)[0] != 0:
+                return False
+            ex = hh["tracker"] == "sort"
+            return observable(hh, ra, ex) != observable(bb, rb, ex)
+        small = shrink_history(a, f) if f(a) else a
+        msg = "a tracker with a constraints table that no considered pair violates behaves differently from one without constraints"
+        chk.violation("C20:" + key, msg, replay_obj(small, msg, {"pair": {"kind": "noconstraints"}, "original_history": k, "seed": chk.seed}))
+        found = True
+    chk.coverage["tracker_level"] = {"histories_with_binding_pairs": nb_hist, "binding_pairs": binding_pairs,
+                                     "nonbinding_run_pairs_compared": compared,
+                                     "failing_keys": sorted(list(viol.keys()) + list(nfail.keys()))}
+    report_correspondence(chk, pid, data, found)
+
+
+# ------------------------------------------------------------------------------------------------
+# ties (DESIGN.md 2.3): when the optimal assignment of a call is not unique the implementation may pick any optimum
+# (hash-map / channel order), so two runs may legitimately diverge.  Paired-run oracles only compare histories
+# all of whose calls have a unique optimum.  Decided here by brute force from the oracle table, gating by the
+# letter of the properties (same scene, gap <= max_idle, constraint table); independent of the Coq model.
+
+def _count_optimal(n, pairs, thr, limit=200000):
+    by_i = {}
+    for (i, j, w) in pairs:
+        by_i.setdefault(i, []).append((j, w))
+    best = [None]
+    count = [0]
+    nodes = [0]
+
+    def rec(i, used, val):
+        nodes[0] += 1
+        if nodes[0] > limit:
+            raise OverflowError
+        if i == n:
+            if best[0] is None or val > best[0]:
+                best[0] = val
+                count[0] = 1
+            elif val == best[0]:
+                count[0] += 1
+            return
+        rec(i + 1, used, val + thr)
+        for (j, w) in by_i.get(i, ()):
+            if j not in used:
+                used.add(j)
+                rec(i + 1, used, val + w)
+                used.discard(j)
+    try:
+        rec(0, set(), 0)
+    except OverflowError:
+        return None
+    return count[0]
+
+
+def ties_in_run(h, run):
+    """number of calls whose optimum is not unique (or could not be decided)"""
+    thr = thr_of(h)
+    ep = {}
+    prev_main = []
+    ties = 0
+    batch = h["tracker"] == "batch"
+    for i, op in enumerate(h["ops"]):
+        if i >= len(run["steps"]):
+            break
+        st = run["steps"][i]
+        k = op["kind"]
+        if k in ("predict", "batch"):
+            groups = [(op["scene"], op["dets"])] if k == "predict" else op["scenes"]
+            info = {t["id"]: t for t in prev_main}
+            for scene, dets in groups:
+                if batch and not dets:
+                    continue
+                ep[scene] = ep.get(scene, 0) + 1
+                e = ep[scene]
+                pairs = []
+                for ci, d in enumerate(dets):
+                    for tid, (w, d2r) in st["tab"].get(d["uid"], {}).items():
+                        t = info.get(tid)
+                        if t is None or t["scene"] != scene or not isinstance(w, int) or w < thr or d2r == "p":
+                            continue
+                        gap = e - t["epoch"]
+                        if gap > h["max_idle"] or gap < 0:
+                            continue
+                        lim = applicable_limit(h, gap)
+                        if lim is not None and f32_bits_to_fraction(d2r) > lim:
+                            continue
+                        pairs.append((ci, tid, w))
+                c = _count_optimal(len(dets), pairs, thr)
+                if c is None or c > 1:
+                    ties += 1
+        elif k == "skip":
+            ep[op["scene"]] = ep.get(op["scene"], 0) + op["n"]
+        prev_main = st["main"]
+    return ties
+
+
+def tie_free(h, run):
+    return run is not None and ties_in_run(h, run) == 0
